@@ -5,6 +5,7 @@ import (
 	"crypto/sha256"
 	"encoding/hex"
 	"fmt"
+	"regexp"
 	"sort"
 	"strings"
 	"sync"
@@ -132,9 +133,20 @@ func (s *Sched) Logf(format string, args ...any) {
 	s.mu.Unlock()
 }
 
+// fineLine is the line number inside the name of a statement-level point ("fine:file.go:123:Func").
+var fineLine = regexp.MustCompile(`@fine:([^:]+):\d+:`)
+
+// Digest is the hash of the event log. The line numbers of statement-level points are left out:
+// the code under test may walk a Go map with such points inside the loop, and then the order in
+// which they are reached is the runtime's (harmless as long as the loop's iterations commute --
+// and the code's own affair if they do not); the number of parks and everything observable still
+// has to agree.
 func (s *Sched) Digest() string {
 	h := sha256.New()
 	for _, l := range s.lines {
+		if strings.Contains(l, "@fine:") {
+			l = fineLine.ReplaceAllString(l, "@fine:$1:")
+		}
 		h.Write([]byte(l))
 		h.Write([]byte{'\n'})
 	}
